@@ -90,6 +90,8 @@ type Gen struct {
 	MaxKids  int
 	MaxVals  int
 	NoDigits bool // ASCII literals without digits
+	Ladder   int  // > 0: one size in Ladder (values of an item, characters of a string, children of a list) sits next to a
+	LadderTo int  // power of two up to LadderTo - the thresholds of fast paths, pools, caches and small-size optimisations
 	Indexed  bool // some variable names are an earlier name with an index behind it ("v1[0]"): the shape generated names have
 	names    []string
 }
@@ -203,9 +205,27 @@ func (g *Gen) floatVal(size int) float64 {
 	}
 }
 
+var ladderSizes = []int{15, 16, 17, 31, 32, 33, 63, 64, 65, 127, 128, 129, 255, 256, 257, 511, 512, 513, 1023, 1024, 1025, 2047, 2048, 2049, 4095, 4096, 4097}
+
+// size returns the ordinary size pick(ordinary+1), or - one time in Ladder - a size next to a power of two.
+func (g *Gen) size(ordinary int) int {
+	if g.Ladder > 0 && g.pick(g.Ladder) == 0 {
+		var fit []int
+		for _, n := range ladderSizes {
+			if n <= g.LadderTo {
+				fit = append(fit, n)
+			}
+		}
+		if len(fit) > 0 {
+			return fit[g.pick(len(fit))]
+		}
+	}
+	return g.pick(ordinary + 1)
+}
+
 // an ASCII string over all 128 codes, biased towards the characters the printer and lexer treat specially
 func (g *Gen) asciiStr(maxLen int) string {
-	n := g.pick(maxLen + 1)
+	n := g.size(maxLen)
 	b := make([]byte, n)
 	if g.NoDigits {
 		// (C16 looks for variable names among the words of the printed form; all generated names end in a digit)
@@ -274,7 +294,7 @@ func (g *Gen) leaf(vars bool) *GItem {
 		}
 		return &GItem{F: "A", Str: g.asciiStr(8)}
 	}
-	n := g.pick(g.MaxVals + 1)
+	n := g.size(g.MaxVals)
 	it := &GItem{F: f}
 	for i := 0; i < n; i++ {
 		if vars && g.pick(4) == 0 {
@@ -315,8 +335,22 @@ func (g *Gen) tree(depth int, vars bool) *GItem {
 	if depth == 0 || g.pick(3) == 0 {
 		return g.leaf(vars)
 	}
-	n := g.pick(g.MaxKids + 1)
+	n := g.size(g.MaxKids)
 	it := &GItem{F: "L"}
+	if n > g.MaxKids {
+		// a long list: small children, and no further long lists or long items below it
+		saved := g.Ladder
+		g.Ladder = 0
+		for i := 0; i < n; i++ {
+			if vars && g.pick(6) == 0 {
+				it.Kids = append(it.Kids, &GItem{F: "", Var: g.newVar()})
+			} else {
+				it.Kids = append(it.Kids, g.tree(0, vars))
+			}
+		}
+		g.Ladder = saved
+		return it
+	}
 	for i := 0; i < n; i++ {
 		if vars && g.pick(6) == 0 {
 			it.Kids = append(it.Kids, &GItem{F: "", Var: g.newVar()})
